@@ -337,3 +337,116 @@ def failed_decls(build_out):
                 out.append(f"{m.group(1)}:{mm.group(1) or 'example'}")
                 break
     return sorted(set(out))
+
+
+# ----------------------------------------------------------------------------------------
+# generic "run harness jobs -> driver -> classify" check
+
+def run_jobs(jobs, seed, stdin_by_job=None):
+    """jobs: list of (bin, args). Run all in parallel; return (lines, per_job_counts, failures)."""
+    env = dict(os.environ, VERIF_SEED=str(seed))
+    procs = []
+    for k, (b, args) in enumerate(jobs):
+        inp = (stdin_by_job or {}).get(k)
+        p = subprocess.Popen([hbin(b)] + [str(a) for a in args], stdout=subprocess.PIPE, stderr=subprocess.PIPE,
+                             stdin=subprocess.PIPE if inp is not None else subprocess.DEVNULL, env=env)
+        procs.append((b, args, p, inp))
+    lines, counts, failures = [], {}, []
+    for b, args, p, inp in procs:
+        o, e = p.communicate(inp)
+        out = o.decode("utf-8", "replace").splitlines()
+        lines += out
+        key = b + " " + (str(args[0]) if args else "")
+        counts[key] = counts.get(key, 0) + len(out)
+        if p.returncode != 0:
+            failures.append((key, e.decode("utf-8", "replace")[-400:]))
+    return lines, counts, failures
+
+
+def simple_check(ctx, jobs, rule, nontrivial, describe=None, known_filter=None, correspondence="", assumptions=(), shrinker=None,
+                 evals_per_line=1, sample_filter=None):
+    """nontrivial(line) -> hashable key or None."""
+    pid = ctx.pid
+    st = proof_stage(ctx)
+    hb_ok, hb_out = harness_build(ctx)
+    lines, counts, failures = ([], {}, [])
+    if hb_ok:
+        lines, counts, failures = run_jobs(jobs(ctx) if callable(jobs) else jobs, ctx.seed)
+    mine, diffs, crashes = [], [], []
+    keys = set()
+    if hb_ok and st["driver_ok"]:
+        answers = run_driver(lines)
+        for l, a in zip(lines, answers):
+            k = nontrivial(l)
+            if k is not None:
+                keys.add(k)
+            if a == "ok":
+                continue
+            for part in a.split(" ## "):
+                part = part.strip()
+                if part.startswith("ORACLE " + pid + " "):
+                    mine.append((l, part))
+                elif part.startswith("DIFF"):
+                    diffs.append((l, part))
+                elif part.startswith("ORACLE"):
+                    pass
+                else:
+                    crashes.append((l, part))
+    samples = [l[:400] for l in lines if (sample_filter(l) if sample_filter else True)][:3]
+    ctx.coverage.update(evaluations=len(lines) * evals_per_line, distinct_nontrivial=len(keys), streams=counts, rule=rule,
+                        samples=samples or ["(no cases: harness did not run)"], model_disagreements=len(diffs), oracle_failures=len(mine))
+    ctx.assumptions += list(assumptions)
+    unknown = []
+    seen_known = {}
+    for l, part in mine:
+        k = known_filter(l, part) if known_filter else None
+        if k:
+            seen_known.setdefault(k, (l, part))
+        else:
+            unknown.append((l, part))
+    for k, (l, part) in seen_known.items():
+        ctx.known.append(f"{k}: {part[:200]}")
+    seen_kinds = set()
+    for l, part in unknown:
+        kind = re.sub(r"[0-9a-f]{2,}|[0-9]+", "N", part)[:60]
+        if kind in seen_kinds or len(seen_kinds) >= 6:
+            continue
+        seen_kinds.add(kind)
+        if shrinker:
+            l, part = shrinker(ctx, l, part)
+        violation(ctx, part, dict(kind="oracle-on-implementation", clause=part, case=(describe(l) if describe else l[:2000]),
+                                  harness_line=l[:6000], replay_cmd=f"./check {pid} --replay <this file>"))
+    if not unknown:
+        if not st["ok"]:
+            violation(ctx, f"{pid} proof obligations no longer check: " + st["detail"].strip()[:300],
+                      dict(kind="proof-broken", detail=st["detail"], failed=st.get("failed_decls", []),
+                           searched=f"{len(lines)} generated cases against the property's clauses: no failing input"), no_input=True)
+        elif not hb_ok or failures:
+            violation(ctx, "correspondence harness does not build/run against the current tree",
+                      dict(kind="correspondence-broken", detail=(hb_out[-1500:] if not hb_ok else str(failures))), no_input=True)
+        elif diffs or crashes:
+            l, a = (diffs + crashes)[0]
+            violation(ctx, f"model and implementation disagree ({correspondence}); no clause of {pid} fails on the implementation: {a[:200]}",
+                      dict(kind="correspondence-broken", correspondence=correspondence, harness_line=l[:6000], model_says=a,
+                           count=len(diffs) + len(crashes)), no_input=True)
+    return finish(ctx)
+
+
+def simple_replay(ctx, path, bin_name, corpus_mode="corpus"):
+    import json
+    p = json.load(open(path))
+    harness_build(ctx)
+    lean_build(ctx, ["nucleo_model"])
+    line = p.get("harness_line")
+    if not line:
+        return None
+    r = subprocess.run([hbin(bin_name), corpus_mode], input=(line + "\n").encode(), stdout=subprocess.PIPE, stderr=subprocess.PIPE)
+    out = r.stdout.decode().splitlines()
+    ans = run_driver(out, shards=1)
+    rc = 0
+    for o, a in zip(out, ans):
+        print(o[:800])
+        print("  ->", a)
+        if ("ORACLE " + ctx.pid) in a:
+            rc = 1
+    return rc
